@@ -157,11 +157,19 @@ func VerifyFunction(p *Program, cs *ContractSet, key string, ct *Contract, maxPa
 		v := ex.paramVal0(prm.Type(), "in."+n, st)
 		args = append(args, v)
 	}
+	// a function literal under contract: its captured variables are symbolic too (named as in the source)
+	var bindings []Val
+	for _, fv := range fn.FreeVars {
+		bindings = append(bindings, ex.paramVal0(fv.Type(), "cap."+fv.Name(), st))
+	}
 	ex.inputs = append([]string(nil), collectInputs(u)...)
 	// entry environment
 	fr0 := &Frame{fn: fn, regs: map[ssa.Value]Val{}, top: true, ct: ct}
 	for i, prm := range fn.Params {
 		fr0.regs[prm] = args[i]
+	}
+	for i, fv := range fn.FreeVars {
+		fr0.regs[fv] = bindings[i]
 	}
 	entry := ex.envFor(fr0, st)
 	entry.old = entry
@@ -192,7 +200,7 @@ func VerifyFunction(p *Program, cs *ContractSet, key string, ct *Contract, maxPa
 		st.assume(tv.T)
 	}
 	ex.addCover("requires-satisfiable", st, "")
-	outs := ex.run(fn, args, nil, st.clone(), true, ct)
+	outs := ex.run(fn, args, bindings, st.clone(), true, ct)
 	rnames := resultNames(fn.Signature, ct)
 	nret := 0
 	for _, oc := range outs {
